@@ -1043,7 +1043,10 @@ class ApertureStats:
         The centroid is computed as the center of mass of the unmasked
         pixels within the aperture.
         """
-        origin = np.transpose((self.bbox_xmin, self.bbox_ymin))
+        # the data cutouts are trimmed to the part of the bounding box
+        # that overlaps the data, so their origin is never negative
+        origin = np.transpose((np.maximum(self.bbox_xmin, 0),
+                               np.maximum(self.bbox_ymin, 0)))
         return self.cutout_centroid + origin
 
     @lazyproperty
